@@ -8,6 +8,7 @@ import SqfModel.Pbo
 import SqfModel.Vfs
 import SqfModel.Preproc
 import SqfModel.CfgText
+import SqfModel.LRFront
 import Driver.Proto
 import Std.Data.HashMap
 /-!
@@ -63,6 +64,13 @@ def Env.reg (e : Env) (f : List (List Nat)) (idx : Nat) : Registry :=
 def verbAsm (e : Env) (f : List (List Nat)) : List Nat :=
   let text := f.headD []
   match assemble (e.reg f 1) text with
+  | some is => str "ok " ++ renderInstrs is
+  | none => str "parse-error"
+
+/-- the same through the LALR tables translated from parser.tab.cc (`LRFront.lean`) -/
+def verbAsmLR (e : Env) (f : List (List Nat)) : List Nat :=
+  let text := f.headD []
+  match Sqf.LRFront.assembleLR (e.reg f 1) text with
   | some is => str "ok " ++ renderInstrs is
   | none => str "parse-error"
 
@@ -488,10 +496,11 @@ def verbDiag (f : List (List Nat)) : List Nat :=
       | some t => posOf t
       | none => str "no-token"
     else if kind == str "line" then
-      -- gl = [ <number> , <string> ]
+      -- gl = [ <number or string> , <number or string> ]
       let rec go : List Sqf.Token → List Nat
         | a :: b :: c :: d :: e :: g :: rest =>
-          if a.kind == .ident && a.text == str "gl" && b.kind == .equal && c.kind == .edgeO && d.kind == .number && g.kind == .stringDouble
+          if a.kind == .ident && a.text == str "gl" && b.kind == .equal && c.kind == .edgeO && (d.kind == .number || d.kind == .stringDouble)
+              && e.kind == .comma && (g.kind == .number || g.kind == .stringDouble)
           then str "gl=[" ++ d.text ++ [44] ++ g.text ++ [93] else go (b :: c :: d :: e :: g :: rest)
         | _ => str "no-token"
       go toks
@@ -527,6 +536,11 @@ def verbCfgAst (f : List (List Nat)) : List Nat :=
   | none => str "fail"
   | some ns => if ns.isEmpty then str "ok" else str "ok " ++ joinWith [32] (ns.map renderCfgNode)
 
+def verbCfgAstLR (f : List (List Nat)) : List Nat :=
+  match Sqf.LRFront.parseCfgLR (f.headD []) with
+  | none => str "fail"
+  | some ns => if ns.isEmpty then str "ok" else str "ok " ++ joinWith [32] (ns.map renderCfgNode)
+
 def handle (e : Env) (verb : String) (f : List (List Nat)) : List Nat :=
   if verb == "asm" then verbAsm e f
   else if verb == "lex" then verbLex f
@@ -544,6 +558,8 @@ def handle (e : Env) (verb : String) (f : List (List Nat)) : List Nat :=
   else if verb == "diag" then verbDiag f
   else if verb == "cfglex" then verbCfgLex f
   else if verb == "cfgast" then verbCfgAst f
+  else if verb == "cfgastlr" then verbCfgAstLR f
+  else if verb == "asmlr" then verbAsmLR e f
   else str "bad-verb"
 
 partial def loop (e : Env) (h : IO.FS.Stream) (out : IO.FS.Stream) : IO Unit := do
